@@ -312,11 +312,12 @@ func ruleBatchBuffer(c *Ctx) {
 	}}
 	_, fails := requireAt(P, sr, 0, []Ev{buffered, counted}, func(x ssa.Instruction) bool { _, ok := x.(*ssa.Return); return ok }, func(h []bool) bool { return !h[0] || h[1] })
 	countExact := len(fails) == 0
-	c.need(rule, flush, "successful return", func(x ssa.Instruction) bool { r, ok := x.(*ssa.Return); return ok && retIsNilErr(r) },
-		[]Ev{newOkEv(flush, "ok(SaveRegions)", callMatcher(saveRegions)),
+	// (success: `return nil`, or the write's own error handed on as it is)
+	c.needOnSuccess(rule, flush,
+		[]Ev{&calledEv{name: "SaveRegions called", match: instrCallMatcher(saveRegions)}, newSettledEv(flush, "SaveRegions", callMatcher(saveRegions)),
 			guardRel("len(batchRegions) == 0", "== <=", lenOf(loadOfField(batch)), isConstInt(0)),
 			guardRel("cacheSize == 0", "== <=", loadOfField(cache), isConstInt(0))},
-		func(h []bool) bool { return h[0] || h[1] || (h[2] && countExact) },
+		func(h []bool) bool { return (h[0] && h[1]) || h[2] || (h[3] && countExact) },
 		"flush returns success only after writing the batch, or when the buffer is empty (by length, or by a counter that covers every buffered region)")
 }
 
